@@ -13,3 +13,12 @@ Print Assumptions C11.
 
 (* "executes no rule action": the model of FetchMatchingRules has no action parameter at all *)
 Check fetch_signature.
+
+(* the same for the engine WITH its working memory, from any memory contents, tied to the from-scratch value of each
+   rule's condition (proofs/MemoTheorems.v); and the facts are left alone (C08, third clause) *)
+From Grule Require Import Values Syntax Facts Eval Refinement MemoTheorems.
+Theorem C11_semantic : forall rules meth panics_inside mutating
+  (meth_pure : forall fs f args ret fs', mutating f = false -> meth fs f args = Ok (ret, fs') -> fs' = fs),
+  rules_ok rules mutating -> C11_semantic_statement rules meth panics_inside.
+Proof. exact C11_semantic_proved. Qed.
+Print Assumptions C11_semantic.
